@@ -14,6 +14,7 @@ import Proofs.Lemmas.C03HexSpec
 import Proofs.Lemmas.C03Total
 import Proofs.Lemmas.C03Decimal
 import Proofs.Lemmas.C03DecFB
+import Proofs.Lemmas.C03Mirror
 import Model.Fmt.Reader
 
 namespace C03
@@ -475,6 +476,56 @@ theorem floatBits_correct' (d0 : Dc) (hwf : WF d0) (ht0 : d0.trunc = false) (hfi
       if d0.d = [] then .ok (F64.zero d0.neg)
       else evalFrac d0.neg (decFrac (valOf 10 d0.d) (d0.dp - d0.d.length)).1 (decFrac (valOf 10 d0.d) (d0.dp - d0.d.length)).2 :=
   floatBits_correct d0 hwf ht0 hfin
+
+/-- **decSet_correct** — `decimal.set` (atof.go) against the specification's recogniser, for texts
+that passed `underscoreOK`: it fails exactly when the recogniser rejects the text or sees a hex
+literal; otherwise (mantissa of at most 800 significant digits, exponent literal below the
+clamp) it builds a well-formed, untruncated decimal with the numeral's sign and exact value
+(or the empty decimal for a zero mantissa). -/
+theorem decSet_correct (s : Bytes) (hu : underscoreOK s = true) :
+    (recognise s = none → decSet s = none) ∧
+    (∀ p, recognise s = some p → p.hex = true → decSet s = none) ∧
+    (∀ p, recognise s = some p → p.hex = false → p.mant < 10 ^ 800 → expLit s < 10000 →
+      ∃ d, decSet s = some d ∧ WF d ∧ d.trunc = false ∧ d.neg = p.neg ∧ (p.mant = 0 → d.d = []) ∧
+        (p.mant ≠ 0 → d.d ≠ [] ∧ dval d = valueOf p)) :=
+  decSet_spec s hu
+
+/-- **slowPath_mirror_correct** — the mirrored multiprecision slow path `d.set(s); d.floatBits()`
+computes what the specification says (recogniser verdict; correctly rounded value; range rule)
+whenever the run drops no non-zero digit (`NoTrunc`). -/
+theorem slowPath_mirror_correct (s : Bytes) (hu : underscoreOK s = true) (hlit : expLit s < 10000)
+    (hmant : ∀ p, recognise s = some p → p.mant < 10 ^ 800) (hnt : NoTrunc s) :
+    (slowPathMirror s).toExcept =
+      match recognise s with
+      | none => .error .syntax
+      | some p => if p.hex then .error .syntax else p.eval :=
+  slowPathMirror_spec s hu hlit hmant hnt
+
+/-- **parseFloat_mirror_correct** — the FULLY MIRRORED model of `bytesconv.ParseFloat(s, 64)`, with
+no specification inside (underscore check, special values, `readFloat`, `atofHex`,
+`atof64exact`, `decimal.set`, `Shift`/`leftShift`/`rightShift` with the cheat table,
+`floatBits`, `RoundedInteger`), equals `parseFloatSpec` — same bits or same error — for every
+byte string with an exponent literal below 10000, at most 800 significant mantissa digits, and
+a slow-path run that drops no non-zero digit. The driver runs this model next to the real
+`ParseFloat` on every case (`pfm=`), so the correspondence ties it bit for bit. -/
+theorem parseFloat_mirror_correct (s : Bytes) (hlit : expLit s < 10000)
+    (hmant : ∀ p, recognise s = some p → p.mant < 10 ^ 800) (hnt : NoTrunc s) :
+    (parseFloatMirror s).toExcept = parseFloatSpec s :=
+  parseFloatMirror_eq_spec s hlit hmant hnt
+
+/-- … and the reader's `atof` on top of it -/
+theorem reader_atof_mirror_correct (x : Bytes) (hne : x ≠ []) (hlit : expLit x < 10000)
+    (hmant : ∀ p, recognise x = some p → p.mant < 10 ^ 800) (hnt : NoTrunc x) :
+    (readerAtofMirror x).toExcept = parseFloatSpec x := by
+  cases h : atofLoop x 0 with
+  | some v =>
+    have := atof_fast_correct x hne v h
+    unfold readerAtof at this; rw [h] at this
+    unfold readerAtofMirror; rw [h]; exact this
+  | none =>
+    unfold readerAtofMirror
+    rw [h]
+    exact parseFloat_mirror_correct x hlit hmant hnt
 
 /-! ## number errors become per-line syntax errors (reader.go:265-293) -/
 
